@@ -6,6 +6,7 @@
 #include "utils.h"
 #include "zobrist_hash.h"
 
+#include <algorithm>
 #include <optional>
 #include <sstream>
 
@@ -190,19 +191,27 @@ bool Position::is_draw() const
     return rule50() || threefold_repetition() || !enough_material();
 }
 
+int Position::first_history_index() const
+{
+    // A position cannot recur across a capture or pawn move, so only the plies since the
+    // half-move clock was reset matter; _history is a ring buffer of MAX_PLIES keys.
+    return std::max({0, _history_counter - 1 - int(_half_move_counter),
+                     _history_counter - MAX_PLIES});
+}
+
 bool Position::threefold_repetition() const
 {
     int count = 1;
-    for (int i = _history_counter - 2; i >= 0; --i)
-        if (_history[i] == _zobrist_hash.get_key())
+    for (int i = _history_counter - 2; i >= first_history_index(); --i)
+        if (_history[i % MAX_PLIES] == _zobrist_hash.get_key())
             if (++count == 3) return true;
     return false;
 }
 
 bool Position::is_repeated() const
 {
-    for (int i = _history_counter - 2; i >= 0; --i)
-        if (_history[i] == _zobrist_hash.get_key()) return true;
+    for (int i = _history_counter - 2; i >= first_history_index(); --i)
+        if (_history[i % MAX_PLIES] == _zobrist_hash.get_key()) return true;
     return false;
 }
 
@@ -529,8 +538,7 @@ MoveInfo Position::do_move(Move move)
             set_enpassant_square(NO_SQUARE);
     }
 
-    assert(_history_counter < MAX_PLIES);
-    _history[_history_counter++] = _zobrist_hash.get_key();
+    _history[_history_counter++ % MAX_PLIES] = _zobrist_hash.get_key();
 
     return create_moveinfo(captured, prev_castling, prev_enpassant_sq,
                            enpassant, hm_counter);
